@@ -191,6 +191,15 @@ theorem C17_quiet_run_repaired (hfix : ∀ c, Gen.Shutdown.thread_run_stops fals
     · exact e1 x hx
     · exact e2 x hx
 
+/-- **C17, quiet — at full strength** (the D31 repair is in the tree: `GenFacts.Shutdown.thread_run_stops_when_done`): in a
+closed host every block that can occur at all emits nothing, forever — browser threads included, whatever is still in
+their queues. -/
+theorem C17_quiet : C17_quiet_full := C17_quiet_repaired thread_run_stops_when_done
+
+theorem C17_quiet_run (bs : List Block) (hnb : ∀ b ∈ bs, b.isBrowse = false) (h : Host) (hw : WF h) (hc : Closed h)
+    (h' : Host) (o : List Out) (hr : run h bs = some (h', o)) : (∀ x ∈ o, x.isEmission = false) ∧ Closed h' ∧ WF h' :=
+  C17_quiet_run_repaired thread_run_stops_when_done bs hnb h hw hc h' o hr
+
 /-- the same, starting from "a close call has returned" -/
 theorem C17_quiet_after_return_partial (bs : List Block) (hnb : ∀ b ∈ bs, b.isBrowse = false) (h : Host) (hw : WF h)
     (hr : h.closes.any Close.isReturned = true) (hq : QueuesEmpty h)
@@ -938,6 +947,12 @@ theorem C17_second_cancel_asserts (h : Host) (hd : h.done = false) (b : Browser)
   rw [zcClose_of_not_done h hd]
   simp only [syncCancelOuts, List.mem_flatMap]
   exact ⟨b, hb, by simp [hz, hc]⟩
+
+/-- **No close call hands an exception to its caller — with the D30 repair in the tree** the class `selfJoins` is empty
+(`GenFacts.Shutdown.thread_cancel_guards_self_join_holds`): what remains is `LoopInv` (finding D32). -/
+theorem C17_close_never_raises_d32_partial (h : Host) (b : Block) (hb : b.plainClose = true)
+    (hl : LoopInv h) (h' : Host) (o : List Out) (hs : step h b = some (h', o)) (e : Exc) : Out.raised e ∉ o :=
+  C17_close_never_raises_partial h b hb (C17_selfJoins_repaired thread_cancel_guards_self_join_holds h b) hl h' o hs e
 
 /-- **D32, machine-checked.**  Two sync closes from two threads on an instance with its own loop thread, both past
 `engine.close()`: both pass the `if not self._loop_thread` test, the first stops the loop and forgets the thread, the second
